@@ -8,6 +8,7 @@ import (
 	"go/ast"
 	"go/token"
 	"go/types"
+	"regexp"
 	"sort"
 	"strings"
 )
@@ -17,6 +18,7 @@ type State struct {
 	heap   map[string]Term
 	pc     Term
 	dead   bool
+	probe  *[]string // non-nil: heap reads resolve to formal parameters hp!<key> (recursive spec function bodies)
 	leaves []Term // path conditions of the joined paths: pc implies their disjunction (used to case-split hard obligations)
 }
 
@@ -48,8 +50,10 @@ type Obligation struct {
 	Splits  []Term
 	NSplit  int
 	// filled by the discharger
-	Res  SolverResult
-	exec *Exec
+	Res     SolverResult
+	exec    *Exec
+	anc     map[string]bool
+	NoSlice bool
 }
 
 type ctlFrame struct {
@@ -73,6 +77,10 @@ type Exec struct {
 	declared map[string]bool
 	assumps  []string
 	atags    map[int]string // assumption index -> premise-selection tag
+	actx     map[int]string // assumption index -> path condition under which it was introduced
+	ctxPC    string
+	ctxMark  int
+	pcParents map[string][]string
 	obls     []*Obligation
 	nfresh   int
 	wordMode bool
@@ -115,6 +123,8 @@ type Exec struct {
 	specPos        token.Pos
 	specErrors     []string
 	nq             int
+	recInProgress  map[string]bool
+	recKeys        map[string][]string
 }
 
 type modLoc struct {
@@ -184,6 +194,61 @@ func (e *Exec) assume(st *State, f Term) {
 		return
 	}
 	e.assumps = append(e.assumps, "(assert "+Implies(st.pc, f).S+")")
+}
+
+// globalAxiom appends a premise that is relevant on every path.
+func (e *Exec) globalAxiom(text string) {
+	e.syncCtx(e.ctxPC)
+	e.assumps = append(e.assumps, text)
+	e.actx[len(e.assumps)-1] = "true"
+	e.ctxMark = len(e.assumps)
+}
+
+// syncCtx attributes the assumptions appended since the last sync to the path condition
+// that was current, then switches to a new current path condition.
+func (e *Exec) syncCtx(newCtx string) {
+	for i := e.ctxMark; i < len(e.assumps); i++ {
+		if _, ok := e.actx[i]; !ok {
+			e.actx[i] = e.ctxPC
+		}
+	}
+	e.ctxMark = len(e.assumps)
+	e.ctxPC = newCtx
+}
+
+// reparentSince re-attributes assumptions appended since index n to ctx (used after a
+// temporary path-condition extension whose definitions stay visible afterwards).
+func (e *Exec) reparentSince(n int, ctx string) {
+	for i := n; i < len(e.assumps); i++ {
+		e.actx[i] = ctx
+	}
+	e.ctxMark = len(e.assumps)
+	e.ctxPC = ctx
+}
+
+var pcNameRe = regexp.MustCompile(`pc![0-9]+`)
+
+func (e *Exec) notePCDef(name string, def string) {
+	e.pcParents[name] = pcNameRe.FindAllString(def, -1)
+}
+
+// pcAncestors is the set of named path conditions that pc is built from.
+func (e *Exec) pcAncestors(pc string) map[string]bool {
+	out := map[string]bool{}
+	var walk func(string)
+	walk = func(p string) {
+		if out[p] {
+			return
+		}
+		out[p] = true
+		for _, q := range e.pcParents[p] {
+			walk(q)
+		}
+	}
+	for _, p := range pcNameRe.FindAllString(pc, -1) {
+		walk(p)
+	}
+	return out
 }
 
 // assumeTagged adds a fact that belongs to a premise group: obligations of another
@@ -263,6 +328,7 @@ func (e *Exec) obligeNamed(st *State, name, kind, tag string, goal Term, desc st
 	if e.depth > 0 {
 		name += fmt.Sprintf("@inl%d", e.depth)
 	}
+	e.syncCtx(st.pc.S)
 	e.obls = append(e.obls, &Obligation{Name: name, Func: e.fn.Key, Kind: kind, Tag: tag, NAssump: len(e.assumps), NDecl: len(e.decls),
 		PC: st.pc, Goal: goal, Desc: desc, Pos: e.pos(p), Bounded: e.boundedK, Splits: append([]Term(nil), st.leaves...)})
 }
@@ -281,14 +347,18 @@ func (e *Exec) addPC(st *State, c Term) {
 	if c.S == "true" {
 		return
 	}
-	if st.pc.S == "true" && len(c.S) < 40 {
+	if st.pc.S == "true" && len(c.S) < 40 && !strings.Contains(c.S, "pc!") {
+		e.syncCtx("true")
 		st.pc = c
 		return
 	}
 	n := e.fresh("pc", SBool)
+	e.syncCtx(st.pc.S)
 	e.assumeGlobal(Eq(n, And(st.pc, c)))
 	e.defs[n.S] = And(st.pc, c).S
+	e.notePCDef(n.S, And(st.pc, c).S)
 	st.pc = n
+	e.syncCtx(n.S)
 }
 
 // merge joins states at a control-flow join.
@@ -311,9 +381,12 @@ func (e *Exec) merge(states []*State) *State {
 		pcs = append(pcs, s.pc)
 	}
 	npc := e.fresh("pc", SBool)
+	e.syncCtx("true")
 	e.assumeGlobal(Eq(npc, Or(pcs...)))
 	e.defs[npc.S] = Or(pcs...).S
+	e.notePCDef(npc.S, Or(pcs...).S)
 	out.pc = npc
+	e.syncCtx(npc.S)
 	// leaf path conditions for case splitting
 	var leaves []Term
 	for _, s := range live {
@@ -721,20 +794,32 @@ func (e *Exec) declareHeapVersion(key, name string) Term {
 		v := Select(Select(t, r, ArraySort(SInt, m.vsort)), i, m.vsort)
 		f := e.rangeFact(v, m.vtype)
 		if f.S != "true" {
-			e.assumps = append(e.assumps, fmt.Sprintf("(assert (forall ((r!q Int) (i!q Int)) (! %s :pattern (%s))))", f.S, v.S))
+			e.globalAxiom(fmt.Sprintf("(assert (forall ((r!q Int) (i!q Int)) (! %s :pattern (%s))))", f.S, v.S))
 		}
 	} else {
 		r := Term{"r!q", SInt}
 		v := Select(t, r, m.vsort)
 		f := e.rangeFact(v, m.vtype)
 		if f.S != "true" {
-			e.assumps = append(e.assumps, fmt.Sprintf("(assert (forall ((r!q Int)) (! %s :pattern (%s))))", f.S, v.S))
+			e.globalAxiom(fmt.Sprintf("(assert (forall ((r!q Int)) (! %s :pattern (%s))))", f.S, v.S))
 		}
 	}
 	return t
 }
 
 func (e *Exec) heapGet(st *State, key string) Term {
+	if st.probe != nil {
+		found := false
+		for _, k := range *st.probe {
+			if k == key {
+				found = true
+			}
+		}
+		if !found {
+			*st.probe = append(*st.probe, key)
+		}
+		return Term{"hp!" + key, e.heapMetas[key].sort}
+	}
 	if t, ok := st.heap[key]; ok {
 		return t
 	}
